@@ -81,10 +81,36 @@ def cSortThenFilter (i : Input) (t : Trace) : Bool :=
   | some r, some ids => ids == (iterate r).filter (fun x => i.ids.contains x)
   | _, _ => false
 
+/-- what identifies a suite OBJECT in a model whose trees are values: its class and its tests (ids ascending - wherever
+`sorted_tests` answers at all the ids are unique, so two different non-empty suites never share this) -/
+abbrev Ident := Kind × List Nat
+
+/- every suite that is not exactly a `unittest.TestSuite`, at ANY depth, each with the nearest such suite around it -/
+mutual
+def customs (par : Option Ident) : T → List (Ident × Option Ident)
+  | .case _ => []
+  | .suite k cs =>
+    if k = .plain then customsL par cs
+    else ((k, ascending (iterateL cs)), par) :: customsL (some (k, ascending (iterateL cs))) cs
+def customsL (par : Option Ident) : List T → List (Ident × Option Ident)
+  | [] => []
+  | t :: ts => customs par t ++ customsL par ts
+end
+
+/-- "custom suites kept whole" AT EVERY DEPTH (seed C19-f): every suite of the input that is not a plain `TestSuite` - also one
+nested inside a suite whose own `sort_tests` ran (a `FixtureSuite` inside a `FixtureSuite`), also one nested inside a suite kept
+as it is - is still there in the result as one suite of its class with its own tests, inside the same custom suite as before; and
+the result has no others.  (Only plain suites are dissolved.  That the surviving suite is the very same OBJECT, and that a kept
+`FixtureSuite` still sets its fixture up when the result is run, is checked on the real objects by the harness.) -/
+def cSortedWhole (i : Input) (t : Trace) : Bool :=
+  match t.sorted with
+  | none => true
+  | some r => (customs none r).isPerm (customs none i.tree)
+
 def clauses : List (String × (Input → Trace → Bool)) :=
   [("iterate", cIter), ("filter-ids", cFilterIds), ("filter-shape", cFilterShape),
    ("sorted-dup", cSortedDup), ("sorted-items", cSortedItems), ("sorted-perm", cSortedPerm),
-   ("list", cList), ("load-list", cLoad), ("sort-then-filter", cSortThenFilter)]
+   ("list", cList), ("load-list", cLoad), ("sort-then-filter", cSortThenFilter), ("sorted-whole", cSortedWhole)]
 
 def holds (i : Input) (t : Trace) : Bool := clauses.all fun c => c.2 i t
 
